@@ -311,17 +311,24 @@ def render(I, rng=None):
             opt(e, "maximalFormationCount", s["limit"], s["limit"] != -1)
             segs.append(e)
         routes.append({"id": r["id"], "vehicleType": r["ty"], "segments": segs})
+    rng.shuffle(routes)
     out["routes"] = routes
     deps = []
     for d in I["_departures"]:
         deps.append({"id": d["id"], "route": d["route"], "segments": [
             {"id": s["id"], "routeSegment": s["seg"], "departure": iso(s["dep"]), "passengers": s["pax"],
              "seated": s["seated"]} for s in d["segs"]]})
+    rng.shuffle(deps)
     out["departures"] = deps
     if I["hasSlots"]:
         out["maintenanceSlots"] = [{"id": s["id"], "location": s["loc"], "start": iso(s["start"]),
                                     "end": iso(s["end"]), "trackCount": s["tracks"]} for s in I["slots"]]
-    out["deadHeadTrips"] = {"indices": list(I["locs"]), "durations": I["dhDur"], "distances": I["dhDist"]}
+    # the matrices are indexed by `indices`, whose order need not be the order of `locations`
+    perm = list(range(len(I["locs"])))
+    rng.shuffle(perm)
+    out["deadHeadTrips"] = {"indices": [I["locs"][i] for i in perm],
+                            "durations": [[I["dhDur"][i][j] for j in perm] for i in perm],
+                            "distances": [[I["dhDist"][i][j] for j in perm] for i in perm]}
     params = {}
     opt(params, "forbidDeadHeadTrips", I["forbid"], I["forbidGiven"])
     params["shunting"] = {"minimalDuration": I["shuntMin"], "deadHeadTripDuration": I["shuntDh"]}
